@@ -152,9 +152,15 @@ def check_capped_array(ctx, case):
     if w > 64:
         ctx.fail(sig + '/word>64', case, {'fmt': [s, w, f]})
         return
-    if w >= 64:
-        return          # the 64-bit word itself is python-integer territory (C18); the cap is what is asserted
-    ks = C.flat(C.codes(x))
+    try:
+        ks = C.flat(C.codes(x))
+    except ValueError as e:
+        ctx.fail(sig + '/non-integer-code', case, {'error': str(e)})
+        return
+    lo, hi = M.rng(s, w)
+    if any(not lo <= k <= hi for k in ks):
+        ctx.fail(sig + '/code-out-of-range', case, {'codes': [str(k) for k in ks], 'fmt': [s, w, f]})
+        return
     o, u, ia = C.flags(x)
     if o or u:
         ctx.fail(sig + '/overflow-flag', case, {'flags': [o, u, ia], 'fmt': [s, w, f], 'values': vs})
